@@ -1,6 +1,7 @@
 package main
 
 import (
+	"bytes"
 	"fmt"
 	"math"
 	"math/big"
@@ -55,6 +56,52 @@ func implCellBytes(data []byte, pos int, typ byte, meta uint16, uns bool) vh.Val
 		}
 		return vh.Ok(vh.XN(v), vh.I(int64(l)))
 	})
+}
+
+// implCellBytesRaw also hands out the slice CellBytes returned (nil on error / panic), for the retention checks.
+func implCellBytesRaw(data []byte, pos int, typ byte, meta uint16, uns bool) (vh.Val, []byte) {
+	var raw []byte
+	v := vh.Try(func() vh.Val {
+		v, l, err := replication.CellBytes(data, pos, typ, meta, uns)
+		if err != nil {
+			return vh.ErrV(errClass(err))
+		}
+		raw = v
+		return vh.Ok(vh.XN(v), vh.I(int64(l)))
+	})
+	return v, raw
+}
+
+// keptCell: a value a consumer still holds, with a private copy of what it read when it got it.
+type keptCell struct {
+	got, want []byte
+	cse, in   string
+}
+
+// retain models a consumer that holds the last few values it was handed and recycles the memory of older ones:
+// every held value must still read as delivered after later cells were decoded (no shared scratch storage), and
+// overwriting a value the consumer is done with (and the spare capacity behind it) must not change what is decoded later.
+func retain(c *Ctx, keep []keptCell, raw []byte, cse, in, class string, reported *bool) []keptCell {
+	for _, k := range keep {
+		if !bytes.Equal(k.got, k.want) && !*reported {
+			*reported = true
+			c.R.Add(vh.Mismatch{Kind: "spec", What: "a value decoded earlier changed when later cells were decoded (" + class + ")",
+				Case: k.cse, Input: k.in + " ; then " + in, Expected: fmt.Sprintf("%x", k.want), Impl: fmt.Sprintf("%x", k.got), InDomain: true})
+		}
+	}
+	if raw == nil {
+		return keep
+	}
+	keep = append(keep, keptCell{raw, append([]byte(nil), raw...), cse, in})
+	if len(keep) > 6 {
+		old := keep[0].got
+		keep = keep[1:]
+		old = old[:cap(old)]
+		for j := range old {
+			old[j] = '#'
+		}
+	}
+	return keep
 }
 
 func implCellLength(data []byte, pos int, typ byte, meta uint16) vh.Val {
@@ -140,6 +187,8 @@ func runCellCases(c *Ctx, cases []cellCase, checkFloat bool) {
 		reqs[i] = vh.L(vh.A("cell"), cs.ty, vh.B(cs.uns), cs.val, vh.I(zoneOffset(cs.tzInst)), vh.X(cs.pre), vh.X(cs.rest))
 	}
 	resps := c.M.Batch(reqs)
+	var keep []keptCell
+	reported := false
 	for i, cs := range cases {
 		r := resps[i] // (wf code meta enc spec model mlen)
 		c.R.Count(cs.class)
@@ -158,10 +207,11 @@ func runCellCases(c *Ctx, cases []cellCase, checkFloat bool) {
 		model := substOutcome(r.Nth(5))
 		mlen := r.Nth(6)
 		data := vh.Exact(append(append(append([]byte{}, cs.pre...), enc...), cs.rest...))
-		impl := implCellBytes(data, len(cs.pre), byte(code), uint16(meta), cs.uns)
+		impl, raw := implCellBytesRaw(data, len(cs.pre), byte(code), uint16(meta), cs.uns)
 		ilen := implCellLength(data, len(cs.pre), byte(code), uint16(meta))
 		want := vh.Ok(vh.X(spec), vh.I(int64(len(enc))))
 		in := fmt.Sprintf("data=%x pos=%d type=%d meta=%d unsigned=%v", data, len(cs.pre), code, meta, cs.uns)
+		keep = retain(c, keep, raw, reqs[i].String(), in, strings.SplitN(cs.class, "/", 2)[0], &reported)
 		if impl.String() != want.String() {
 			c.R.Add(vh.Mismatch{Kind: "spec", What: "CellBytes differs from the canonical text / consumed length (" + strings.SplitN(cs.class, "/", 2)[0] + ")",
 				Case: reqs[i].String(), Input: in, Expected: want.String(), Model: model.String(), Impl: impl.String(), InDomain: true})
